@@ -14,11 +14,22 @@ import TinsModel.Matching.Out
   * `reject`  — `b` differs from the mirrored reply in a *matched* field.  Matched fields: reply
                 destination address (unless the request source is the unspecified IPv4 address);
                 reply source address unless the request destination is broadcast / multicast; both
-                ports; ICMP / ICMPv6 reply type, identifier, sequence number; DNS id; VLAN id.  The layers in front of the
-                differing field must be well formed (otherwise the field is not that field);
-  * `unspec`  — anything else (truncated or differently shaped packet, a differing unmatched field, an
-                ICMP destination-unreachable quoting the request — answered by a third party and outside
-                the mirrored-reply relation).
+                ports; ICMP / ICMPv6 reply type, identifier, sequence number; DNS id; VLAN id; BootP / DHCP
+                transaction id; DHCPv6 transaction id and "the reply is not a relay message"; ARP sender and
+                target protocol address.  The layers in front of the differing field must be well formed
+                (otherwise the field is not that field);
+  * `unspec`  — anything else (truncated or differently shaped packet, a differing unmatched field).
+
+  Second kind of accepted reply (RFC 792 / RFC 1122 §3.2.2.1): an IPv4 packet carrying an ICMP destination
+  unreachable whose quoted datagram starts with the 20 octets of the request's IPv4 header exactly as the request
+  was sent — whoever sent it and whatever follows the quoted header (`quotesRequest`).
+
+  Link layers of the request: Ethernet II, IEEE 802.3, 802.1Q tags (nested any number of times), the BSD loopback
+  family word, a RadioTap capture header.  Network: IPv4 (reply with any option list), IPv6 (reply with any chain of
+  hop-by-hop / routing / fragment / destination-options / mobility headers, `skipExts`).  Above: TCP (ports only —
+  SYN-ACK and RST alike, any option list), UDP, ICMP echo / timestamp / address-mask, ICMPv6 echo, DNS, BootP / DHCP
+  (transaction id; the opcode is not matched), DHCPv6 client / server messages (3-octet transaction id, the reply is
+  not a relay message), ARP (protocol addresses swapped; the opcode is not matched).
 -/
 namespace Tins.Matching
 
@@ -45,6 +56,10 @@ inductive SLayer where
   | dns (id : Bytes)
   | payload                        -- opaque bytes: nothing to match
   | radiotap                       -- capture header in front of the frame: nothing to match
+  | loopback (family : Bytes)      -- BSD loopback / DLT_NULL: the 4-byte address family word (a tag, not matched)
+  | bootp (xid : Bytes)            -- BootP / DHCP: 4-byte transaction id
+  | dhcpv6 (hdr : Bytes)           -- DHCPv6 client/server message: msg-type (1) + transaction id (3) as sent
+  | arp (spa tpa : Bytes)          -- ARP: sender / target protocol address (4 + 4)
 deriving Repr, DecidableEq
 
 inductive Verdict where
@@ -65,6 +80,7 @@ def etherTypeOf : List SLayer → Option Bytes
   | .vlan _ :: _ => some [0x81, 0x00]
   | .ip4 _ :: _ => some [0x08, 0x00]
   | .ip6 _ _ :: _ => some [0x86, 0xdd]
+  | .arp _ _ :: _ => some [0x08, 0x06]
   | _ => none
 
 /-- the IP protocol number announcing the next layer -/
@@ -100,6 +116,35 @@ def ip6IsMulticast (a : Bytes) : Bool := a.getD 0 0 == 255
 
 def vid (tci : Bytes) : Nat := ((tci.getD 0 0).toNat % 16) * 256 + (tci.getD 1 0).toNat
 
+/-- the IPv6 extension headers a reply may carry between the fixed header and the upper layer, all with the layout
+    `next header (1) | length (1) | …`: hop-by-hop options (0), routing (43), fragment (44), destination options (60),
+    mobility (135).  (ESP 50, AH 51 — other length unit —, no-next-header 59, HIP 139, shim6 140, 253/254 are not
+    followed: a reply that needs them skipped has no clause.) -/
+def v6Walkable (h : UInt8) : Bool := h == 0 || h == 43 || h == 44 || h == 60 || h == 135
+
+/-- Follow the chain of extension headers in front of the upper-layer header: `some (p, rest)` = the upper layer has
+    protocol `p` and starts at `rest`; `none` = no clause.  A header of `(len + 1) * 8` octets must be whole **and be
+    followed by at least one octet** (a packet ending in an extension header has no upper layer).  A fragment header
+    (RFC 8200 §4.5) is 8 octets, is sent with its reserved octet zero, and only the first fragment (offset 0) carries
+    the upper-layer header.  Every step consumes ≥ 8 octets: `fuel = length` is the unbounded walk (`skipExts_fuel`). -/
+def skipExts : Nat → UInt8 → Bytes → Option (UInt8 × Bytes)
+  | 0, cur, b => if v6Walkable cur then none else some (cur, b)
+  | fuel + 1, cur, b =>
+    if v6Walkable cur then
+      let n := ((b.getD 1 0).toNat + 1) * 8
+      if n < b.length then
+        if cur == 44 && !(b.getD 1 0 == 0 && b.getD 2 0 == 0 && (b.getD 3 0).toNat / 8 == 0) then none
+        else skipExts fuel (b.getD 0 0) (b.drop n)
+      else none
+    else some (cur, b)
+
+/-- what is demanded behind the extension headers: the upper layer must be the announced one -/
+def v6Cont (ok : UInt8 → Bool) (k : Bytes → Verdict) : Option (UInt8 × Bytes) → Verdict
+  | some (p, b') => if ok p then k b' else .unspec
+  | none => .unspec
+
+def isRelayType (t : UInt8) : Bool := t == 12 || t == 13
+
 /-- RFC 792 destination unreachable carrying exactly the request's IPv4 header -/
 def quotesRequest (hdr b : Bytes) (hl : Nat) : Bool :=
   b.getD 9 0 == 1 && b.length ≥ hl + 28 && b.getD hl 0 == 3 && slice b (hl + 8) 20 == hdr
@@ -124,7 +169,7 @@ def demand : List SLayer → Bytes → Verdict
     if v / 16 != 4 || v % 16 < 5 then .unspec else
     let hl := (v % 16) * 4
     if b.length < hl then .unspec else
-    if quotesRequest hdr b hl then .unspec else
+    if quotesRequest hdr b hl then .accept else
     let src := slice hdr 12 4
     let dst := slice hdr 16 4
     let cont := if protoOk (ipProtoOf rest) (b.getD 9 0) then demand rest (b.drop hl) else .unspec
@@ -132,7 +177,7 @@ def demand : List SLayer → Bytes → Verdict
   | .ip6 src dst :: rest, b =>
     if b.length < 40 then .unspec else
     if (b.getD 0 0).toNat / 16 != 6 then .unspec else
-    let cont := if protoOk (ipProtoOf rest) (b.getD 6 0) then demand rest (b.drop 40) else .unspec
+    let cont := v6Cont (protoOk (ipProtoOf rest)) (fun b' => demand rest b') (skipExts (b.length - 40) (b.getD 6 0) (b.drop 40))
     field (slice b 24 16 == src) true (field (slice b 8 16 == dst) (!ip6IsMulticast dst) cont)
   | .tcp sport dport :: rest, b =>
     if b.length < 20 then .unspec else
@@ -158,5 +203,18 @@ def demand : List SLayer → Bytes → Verdict
     if b.length < 8 then .unspec else
     let itLen := (b.getD 2 0).toNat + (b.getD 3 0).toNat * 256
     if itLen < 8 || b.length < itLen then .unspec else demand rest (b.drop itLen)
+  | .loopback family :: rest, b =>
+    if b.length < 4 then .unspec else
+    if slice b 0 4 == family then demand rest (b.drop 4) else .unspec
+  | .bootp xid :: _, b =>
+    if b.length < 236 then .unspec else
+    field (slice b 4 4 == xid) true .accept
+  | .dhcpv6 hdr :: _, b =>
+    if isRelayType (hdr.getD 0 0) then .unspec else
+    if b.length < 4 then .unspec else
+    field (!isRelayType (b.getD 0 0)) true (field (slice b 1 3 == slice hdr 1 3) true .accept)
+  | .arp spa tpa :: _, b =>
+    if b.length < 28 then .unspec else
+    field (slice b 14 4 == tpa) true (field (slice b 24 4 == spa) true .accept)
 
 end Tins.Matching
